@@ -138,6 +138,34 @@ def _inplace(prog, f, st, cnt, b0):
     return "proved"
 
 
+def _always_own_allocation(prog, f, par):
+    """every call of the static function f passes, for this parameter, a block its caller allocated itself"""
+    k = next((i for i, a in enumerate(f.params) if a is par), None)
+    cs = prog.callers_of(f)
+    if k is None or not cs:
+        return False
+    for c in cs:
+        g = c.fn
+        g.build()
+        if k >= len(c.ops):
+            return False
+        v = strip_casts(c.ops[k])
+        srcs, seen, work = [], set(), [v]
+        while work:
+            x = strip_casts(work.pop())
+            if id(x) in seen:
+                continue
+            seen.add(id(x))
+            if x.is_inst and x.op == "phi":
+                work.extend(x.ops)
+            else:
+                srcs.append(x)
+        if not srcs or not all(x.is_inst and x.op == "call" and norm_callee(x.callee) in ("malloc", "calloc", "alloc_array", "alloc_flex")
+                               for x in srcs):
+            return False
+    return True
+
+
 def run_k6idx(chk, prog, rule="K6-index", files=None):
     n = 0
     for f in prog.functions():
@@ -168,6 +196,8 @@ def run_k6idx(chk, prog, rule="K6-index", files=None):
             b0 = strip_casts(resolve_ptr(prog, base, f.unit)[0])
             if not b0.is_arg:
                 continue       # caller-provided table: its element count is not visible here unless it is tested
+            if f.internal and _always_own_allocation(prog, f, b0):
+                continue       # a static helper of the function that allocated the table: as if the loop were inlined there
             n += 1
             chk.analysed(f)
             inst = "%s:[%s]@%d" % (f.name, cnt.name or "i", i.line)
